@@ -179,7 +179,7 @@ def run(ctx):
                     ok, why = from_ok, "`?` through impl From<io::Error> for EvalErr: " + from_why
             ck.ob("R29a", key, ok, f"the failure of {m}({arg}) is reported as OutOfMemory when the size limit is hit",
                   site=site, detail=why)
-    ck.floor("io::Write call sites in EvalErr-returning serializer functions", nsites, 9)
+    ck.floor("io::Write call sites in EvalErr-returning serializer functions", nsites, 6)
 
     # R29b
     lw = cr.fn("<serde::ser::LimitedWriter<W> as std::io::Write>::write")
@@ -191,7 +191,15 @@ def run(ctx):
         n = compare_norm(lw.switch_cond(b))
         if n:
             tests.append((b, n))
-    want = ({"len(buf)": 1, "self.limit": -1}, 0, ">0")
+    # the two fields of LimitedWriter by type: the remaining-bytes counter is the usize field, the wrapped writer the other one
+    lw_fields = cr.adt("serde::ser::LimitedWriter")["variants"][0]["fields"]
+    LIM = [x["name"] for x in lw_fields if x["ty"] == "usize"]
+    INNER = [x["name"] for x in lw_fields if x["ty"] != "usize"]
+    if len(LIM) != 1 or len(INNER) != 1:
+        raise mir.AnchorMissing("LimitedWriter: expected one usize field (the limit) and one writer field")
+    LIM, INNER = LIM[0], INNER[0]
+    want = ({"len($2)": 1, f"self.{LIM}": -1}, 0, ">0")      # write(&mut self, buf $2)
+    tests = [(b, (lw.unparam(n[0]), n[1], n[2])) for b, n in tests]
     good = [(b, n) for b, n in tests if n == want]
     okb = False
     detail = {"tests": [show_norm(n) for _, n in tests]}
@@ -214,9 +222,9 @@ def run(ctx):
     for b in lw.reachable_blocks():
         for st in lw.stmts(b):
             d = st.get("d")
-            if d and mir.place_fields(d) == ["limit"]:
-                dec.append(show(lw.expr_rvalue(st["rv"])))
-    okd = len(dec) == 1 and dec[0].startswith("(self.limit Sub ") and "Write::write(&mut self.inner, &buf)" in dec[0]
+            if d and mir.place_fields(d) == [LIM]:
+                dec.append(lw.unparam(show(lw.expr_rvalue(st["rv"]))))
+    okd = len(dec) == 1 and dec[0].startswith(f"(self.{LIM} Sub ") and f"Write::write(&mut self.{INNER}, &$2)" in dec[0]
     ck.ob("R29b", "LimitedWriter::write|decrement", okd, "limit -= bytes written by the inner writer (exactly one update)",
           site=lw.where(0), detail=dec)
 
@@ -246,11 +254,13 @@ def run(ctx):
             if w[0] == "named":
                 w = w[3]
             news = [x for x in walk(chain[0]) if x[0] == "call" and x[1].endswith("LimitedWriter::<W>::new")]
-            if not news or strip(news[0][2][1]) != ("var", "limit", f.nargs) and show(strip(news[0][2][1])) != "limit":
+            # ... with the caller's limit: the (only) usize parameter, by position and type, not by name
+            la = strip(news[0][2][1]) if news else ("none",)
+            if not news or la[0] != "var" or not (1 <= la[2] <= f.nargs) or f.local_ty(la[2]) != "usize":
                 good = False
-        # the limit parameter is not reassigned / shadowed
-        lim = f.local_by_name("limit")
-        good = good and len(lim) == 1 and lim[0] <= f.nargs
+            else:
+                # the limit parameter is not reassigned
+                good = good and not f.defs(la[2])
         # the stream function receives that writer
         ck.ob("R29c", f"{e}|ok-value", good, "every Ok value is LimitedWriter::new(_, limit).into_inner() with the caller's limit",
               site=f.where(0), detail=det)
